@@ -9,6 +9,8 @@ for every comparator that is a strict weak order, every slice and every index.
 `Heap cmp s` : no element of `s` precedes its parent `s[(j-1)/2]`.
 -/
 import Golib.Proof.C04SliceOps
+import Golib.Proof.C04Sim
+import Golib.Proof.C04Handles
 
 namespace Golib.C04
 
@@ -69,6 +71,88 @@ theorem c04_slice_pop {cmp} (hs : SWO cmp) (s : List Int) (h : Heap cmp s) :
       ∀ y ∈ s, cmp y x = false) :=
   slice_pop hs s h
 
+/-- `Slice.Peek` returns an element no element of the heap precedes (and `(zero,false)` on empty). -/
+theorem c04_slice_peek {cmp} (hs : SWO cmp) (s : List Int) (h : Heap cmp s) :
+    (s = [] → Slice.peek s = some (0, false)) ∧
+    (s ≠ [] → ∃ x, Slice.peek s = some (x, true) ∧ x ∈ s ∧ ∀ y ∈ s, cmp y x = false) :=
+  slice_peek hs s h
+
+/-- `Slice.Remove(i)` at ANY index: out of range it is a no-op returning `(zero,false)`; in range
+it removes exactly `Values[i]` and `Values` stays heap-ordered. -/
+theorem c04_slice_remove {cmp} (hs : SWO cmp) (s : List Int) (h : Heap cmp s) (i : Int) :
+    ((i < 0 ∨ (s.length : Int) ≤ i) → Slice.remove cmp s i = some (s, 0, false)) ∧
+    (∀ k : Nat, i = (k : Int) → k < s.length →
+      ∃ s', Slice.remove cmp s i = some (s', nthN s k, true) ∧ Heap cmp s' ∧ (nthN s k :: s').Perm s) :=
+  ⟨slice_remove_out cmp s i, fun k hk hlt => hk ▸ slice_remove_in hs s k h hlt⟩
+
+/-- `Slice.Fix(i)` at ANY index, after an arbitrary change of `Values[i]`: out of range a no-op;
+in range the heap order is restored and the multiset kept. -/
+theorem c04_slice_fix {cmp} (hs : SWO cmp) (s0 : List Int) (h : Heap cmp s0) :
+    (∀ i : Int, (i < 0 ∨ (s0.length : Int) ≤ i) → Slice.fix cmp s0 i = some s0) ∧
+    (∀ (k : Nat) (v : Int), k < s0.length →
+      ∃ s', Slice.fix cmp (s0.set k v) (k : Int) = some s' ∧ Heap cmp s' ∧ s'.Perm (s0.set k v)) :=
+  ⟨fun i => slice_fix_out cmp s0 i, fun k v hk => slice_fix_in hs s0 k v h hk⟩
+
+/-- `PopAll` (consumed to the end) yields every element exactly once, sorted, and empties the
+heap: no later element precedes an earlier one. -/
+theorem c04_popall_sorted {cmp} (hs : SWO cmp) (s : List Int) (h : Heap cmp s) :
+    ∃ xs, Slice.popAll cmp (s.length + 1) s = some ([], xs) ∧ xs.Perm s ∧
+      xs.Pairwise (fun a b => cmp b a = false) :=
+  slice_popAll hs s.length s rfl h
+
+/-- The sift routines are parametric in the container: for ANY `Interface` implementation whose
+`Less`/`Swap` agree with those of a slice holding the same data (same answers, same panics — the
+interface laws), the generic `std_up`/`std_down`/`Fix`/`Init` loops behave on the data exactly
+as `up`/`down`/`fix`/`build` on the slice, so `c04_up_restores` … `c04_build_heap` apply to it. -/
+theorem c04_generic_sim {σ : Type} (o : Ops σ) (abs : σ → List Int) (cmp : Int → Int → Bool)
+    (laws : Sim o (sliceOps cmp) (fun a s => abs a = s)) (a : σ) (i n : Int) :
+    RelO (fun x s => abs x = s) (upF o a i) (upF (sliceOps cmp) (abs a) i) ∧
+    RelO (fun x y => abs x.1 = y.1 ∧ x.2 = y.2) (downB o a i n) (downB (sliceOps cmp) (abs a) i n) ∧
+    RelO (fun x s => abs x = s) (fix o a i n) (fix (sliceOps cmp) (abs a) i n) ∧
+    RelO (fun x s => abs x = s) (build o a n) (build (sliceOps cmp) (abs a) n) :=
+  ⟨up_sim laws _ a (abs a) i rfl, downB_sim laws a (abs a) i n rfl, fix_sim laws a (abs a) i n rfl,
+   build_sim laws a (abs a) n rfl⟩
+
+/-- The generic `Init`, `Push`, `Fix` on the recording container of the harness (a lawful
+`Interface`): heap order established / kept / restored, multiset kept, no panic.
+Partial: the same for the generic `Pop(h)` and `Remove(h, i)` (return the minimum / element `i`,
+heap order kept) is not proved yet for the container (it is for `Slice`, whose code is the same
+sequence of calls); both are checked on every run call by call (`Less`/`Swap` log) against the
+model and by the multiset oracle. -/
+theorem c04_generic_partial {cmp} (hs : SWO cmp) (r : Rec) :
+    (∃ r', Gen.init cmp r = some r' ∧ Heap cmp r'.data ∧ r'.data.Perm r.data) ∧
+    (Heap cmp r.data → ∀ x, ∃ r', Gen.push cmp r x = some r' ∧ Heap cmp r'.data ∧
+      r'.data.Perm (x :: r.data)) ∧
+    (Heap cmp r.data → ∀ (i : Nat) (v : Int), i < r.data.length →
+      ∃ r', Gen.fix cmp { r with data := r.data.set i v } (i : Int) = some r' ∧ Heap cmp r'.data ∧
+        r'.data.Perm (r.data.set i v)) :=
+  ⟨gen_init hs r, fun h x => gen_push hs r x h, fun h i v hi => gen_fix hs r i v h hi⟩
+
+/-- `Heap` with handles: if the cached `index` of every element of `h.values` equals its real
+position (`IdxInv`), it still does after `swapEle` and therefore after every `up`, `down`, `fix`
+and `build` run with it, whatever they rearrange. -/
+theorem c04_heap_index_inv {cmp} {m : HMem} {h : Nat} (hI : IdxInv m h) :
+    (∀ i j m', (heapOps cmp h).swap m i j = some m' → IdxInv m' h) ∧
+    (∀ i n m', fix (heapOps cmp h) m i n = some m' → IdxInv m' h) ∧
+    (∀ j m', upF (heapOps cmp h) m j = some m' → IdxInv m' h) ∧
+    (∀ i n m' b, downB (heapOps cmp h) m i n = some (m', b) → IdxInv m' h) ∧
+    (∀ n m', build (heapOps cmp h) m n = some m' → IdxInv m' h) :=
+  ⟨fun i j m' e => swapEle_idxInv hI e, (heap_sift_idxInv hI).1, (heap_sift_idxInv hI).2.1,
+   (heap_sift_idxInv hI).2.2.1, (heap_sift_idxInv hI).2.2.2⟩
+
+/-- Handles: a stale handle (`e.heap == nil`: popped, removed, or discarded by the repaired
+`Init`) and a handle of another heap are ignored by `Remove` and `Fix` (state unchanged); the
+element leaving through `h.pop()` reports `Index() == -1` and loses its owner.
+Partial: that `Remove(e)` for a live `e` removes exactly `e` and that `Push/Pop/Remove/Fix` keep
+the heap order on `Heap` follows from `c04_heap_index_inv` + the `Slice` theorems through the
+simulation `c04_generic_sim` (same values, consistent indices) but is not assembled yet; it is
+checked on every run (Index() of every live and dead handle after every call, sort-free
+multiset oracle). -/
+theorem c04_heap_handles_partial (cmp : Int → Int → Bool) (m : HMem) (h e : Nat) :
+    (m.own.get e ≠ some h → m.remove cmp h e = some m ∧ m.fixElem cmp h e = some m) ∧
+    (∀ m' x, m.popLast h = some (m', x) → m'.idx.get x = -1 ∧ m'.own.get x = none) :=
+  ⟨heap_handles_ignored cmp m h e, fun m' x hp => popLast_left m m' h x hp⟩
+
 /-- Non-vacuity: `<` on keys with ties (the harness's `key` comparator shape) is a strict weak
 order, and a concrete slice with ties is a heap for it. -/
 example : SWO (fun a b => decide (a / 10 < b / 10)) :=
@@ -80,5 +164,14 @@ example : Heap (fun a b => decide (a / 10 < b / 10)) [10, 31, 12, 33, 34, 15] :=
   simp at hc
   have : c = 1 ∨ c = 2 ∨ c = 3 ∨ c = 4 ∨ c = 5 := by omega
   rcases this with rfl | rfl | rfl | rfl | rfl <;> decide
+
+/-- Non-vacuity of `IdxInv`: a two-element heap whose cached indices are exact. -/
+example : IdxInv { HMem.zero with a0 := [0, 1], idx := (Golib.C13.IM.empty.set 0 0).set 1 1, fresh := 2 } 0 := by
+  refine ⟨by simp [HMem.arr], fun k e hk => ?_⟩
+  simp only [HMem.arr, if_true] at hk
+  match k, hk with
+  | 0, hk => simp at hk; subst hk; simp [Golib.C13.IM.get_set]
+  | 1, hk => simp at hk; subst hk; simp [Golib.C13.IM.get_set]
+  | k + 2, hk => simp at hk
 
 end Golib.C04
